@@ -23,9 +23,15 @@ CHECKS = {
     "C08": dict(cat="proof", ref="6 C08",
                 text="SCSICheckCondition(sense), str() and print_data interpreted for every buffer length 1..32 and 252 (1..252 thorough) with every byte symbolic: never raises (every dictionary look-up with a symbolic key is an obligation 'key in table or guarded'), sense key / ASC / ASCQ equal the bytes at SPC's positions for fixed and descriptor, current and deferred formats; ground obligations for a reference sample of T10 texts",
                 note=TRUST + "lengths are enumerated, contents are quantified; T10 texts checked on a reference sample of 18 codes x 4 formats"),
+    "C09": dict(cat="proof", ref="6 C09",
+                text="frame and ownership conditions instead of enumerating histories or schedules: (1) every constructor, codec and facade unit is re-run with automatic frame clauses on every path (all stores the interpreter performs go to objects created during the call; the net effect on every class and module of the package, compared deeply, is empty); (2) an AST scan of every function of the package finds no store into non-local state (global, Class.attr, setattr on shared objects, mutation of class/module containers or default arguments); (3) for ordered pairs of command classes (quick: each class against four partners, thorough: all pairs) and all argument values: building and using B between building and using A changes neither A's CDB nor what A's class decodes/encodes, and equal arguments give equal bytes; non-interference under every order and thread interleaving then follows from (1)+(2) (meta-theorem, argued on paper)",
+                note=TRUST + "thread schedules are not enumerated; import-time initialisation precedes use; unshared objects are unaffected by other threads (CPython)"),
     "C10": dict(cat="proof", ref="6 C10",
                 text="scsi_int_to_ba / scsi_ba_to_int for every size 0..16 (32 thorough) against division/modulo spec functions; encode_dict / decode_bits for every contiguous mask of 1..72 bits at every bit alignment (1..128 thorough) plus every mask in the repository, at a symbolic byte offset of an arbitrary buffer (z3 arrays, skolem index for the frame clause); blobs b/w/dw; order independence and decode(encode) on every layout table of the repository",
                 note=TRUST + "the mask family is finite (stated); a proof parametric in the mask is not attempted; callers verified modularly use these contracts"),
+    "C11": dict(cat="other", ref="6 C11",
+                text="mixed, hence 'other': (1) proof part: a variant obligation at the head of every while loop of every decoder (found by AST scan on every run): from an over-approximated loop-head state (buffer of arbitrary length >= 1 and contents, carried-in values arbitrary as computed by the real prefix, nested loops replaced by their summaries) one execution of the real body strictly shortens the buffer on every path -- unbounded in buffer length; inventory obligations: every while is in the stride schema, every for iterates over a finite sequence fixed before the loop, decoders do not recurse, every layout mask is positive; (2) bounded stand-in: every decoder on all buffers of length 8, 12, 20 (thorough 4..32) with symbolic bytes never exceeds the iteration bound; failing inputs are replayed natively under a line-event budget",
+                note=TRUST + "the stride-loop schema lemma (variant on a natural number implies termination) is the textbook argument, not mechanised; the bounded part may be truncated by its time budget and says so in the evidence"),
     "C12": dict(cat="other", ref="6 C12",
                 text="mixed, hence 'other': (1) array lemmas (read-after-write, preservation, WRITE SAME) over the abstract disk for every transfer length, discharged by z3; (2) end-to-end histories of 2..4 commands (WRITE 10/12/16, WRITE SAME 10/16 incl. NDOB, SYNCHRONIZE CACHE, READ 10/12/16, READ CAPACITY 10/16, INQUIRY) through the real facade and the real SCSIDevice / ISCSIDevice with the stub binding handing every command to an abstract conformant block target that decodes with the standard's layouts: LBAs (64 bit for the 16-byte forms), flag bits, payload bytes and the initial disk symbolic, transfer lengths 1..3 and block sizes 1,2 (thorough: 1,2,4,8) concrete -> bounded; (3) arbitrary lengths, block sizes and histories follow by induction from the per-call contracts of C01/C03/C13/C07",
                 note=TRUST + "the conformant target is spec/block_target.py; bindings deliver CDB and buffers unmodified; part (2) is bounded in transfer length, block size and history length and is not counted as proof"),
